@@ -2,6 +2,7 @@ import Dashu.Props.C04
 import Dashu.Props.C01Dispatch
 import Dashu.Model.Ratio.PowGuard
 import Dashu.Proofs.Ratio.PowGuard
+import Dashu.Proofs.Ratio.PowSmall
 /-
   C04 round 6: `RBig::pow` / `Relaxed::pow` WITH the allocation panics of the two integer powers under `Repr::pow`
   (`Model/Ratio/PowGuard.powChecked`, what the driver executes for `qp.pow`).
@@ -16,6 +17,9 @@ import Dashu.Proofs.Ratio.PowGuard
       component of the exact power has at least `2^62` bits.
   (6) histories: a guarded run (`runG`, what the driver executes for `qp.prog`) is the plain run, or the plain run of a prefix
       followed by the allocation panic of a `pow` step; the history theorems (invariants, values) carry over.
+  (7) (round 7) BELOW memory the guard is silent: if the exact power has fewer than `2^62` bits per component, `pow` returns —
+      no panic alternative; the guarded history (`runG`, op `qp.prog`, the real code) IS the unguarded one (`run`, the older op
+      `prog`); Relaxed = RBig for `pow` without the "whenever both return" hypothesis.
   Kept apart from Props/C04 because it imports C01's proof files.
 -/
 namespace Dashu.Props.C04Pow
@@ -261,5 +265,96 @@ example : upowPanics 64 3 (2 ^ 64 - 1) = true ∧ upowPanics 64 2 (2 ^ 64 - 1) =
 example : (runG 64 [.pow 0 2, .un .inv 1, .pow 2 (2 ^ 62), .un .neg 0] [⟨.R, ⟨-4, 1⟩⟩]).1.map (·.q) = [⟨-4, 1⟩, ⟨16, 1⟩, ⟨1, 16⟩] ∧
     (match (runG 64 [.pow 0 2, .un .inv 1, .pow 2 (2 ^ 62), .un .neg 0] [⟨.R, ⟨-4, 1⟩⟩]).2 with
       | .panic k => k == .allocTooMuch | _ => false) = true := by decide +kernel
+
+-- ------------------------------------------------------------------ (7) below memory the guard is silent (round 7)
+
+
+/-- `pow` below memory: no panic, the stored pair is `pow x n` -/
+theorem pow_checked_ok_below_memory (x : Q) (n : Nat)
+    (hn : x.num.natAbs ^ n < 2 ^ (2 ^ 62)) (hd : x.den ^ n < 2 ^ (2 ^ 62)) :
+    powChecked 64 x n = .ok (pow x n) :=
+  pow_checked_ok 64 x n (pow_guard_silent_below_memory _ _ hn) (pow_guard_silent_below_memory _ _ hd)
+
+/-- a size criterion on the OPERAND: components of at most `a` bits and `a · n ≤ 2^62` — `pow` returns `pow x n` -/
+theorem pow_checked_ok_of_bits (x : Q) (n a : Nat) (hnum : x.num.natAbs < 2 ^ a) (hden : x.den < 2 ^ a)
+    (ha : a * n ≤ 2 ^ 62) : powChecked 64 x n = .ok (pow x n) :=
+  pow_checked_ok_below_memory x n (pow_lt_of_bits _ _ _ hnum ha) (pow_lt_of_bits _ _ _ hden ha)
+
+/-- **RBig::pow below memory, no panic alternative**: reduced and exactly `x ^ n` -/
+theorem rbig_pow_exact_below_memory (x : Q) (n : Nat) (hx : Reduced x)
+    (hn : x.num.natAbs ^ n < 2 ^ (2 ^ 62)) (hd : x.den ^ n < 2 ^ (2 ^ 62)) :
+    ∃ r, powChecked 64 x n = .ok r ∧ Reduced r ∧ r.val = x.val ^ n :=
+  ⟨_, pow_checked_ok_below_memory x n hn hd, Dashu.Props.C04.rbig_pow_exact x n hx⟩
+
+/-- **guarded = unguarded histories below memory**: if every `pow` step of the program, applied to the register the PLAIN
+    run (`run`, the op `prog`) has produced by then, has an exact result of fewer than `2^62` bits per component, the guarded run
+    (`runG`, the op `qp.prog`, what the real code does) is the plain run — same registers, same stop -/
+theorem runG_eq_run_below_memory (ops : List Op) (env : List Reg)
+    (h : ∀ k i n a, ops[k]? = some (.pow i n) → (run (ops.take k) env).1[i]? = some a →
+      a.q.num.natAbs ^ n < 2 ^ (2 ^ 62) ∧ a.q.den ^ n < 2 ^ (2 ^ 62)) :
+    runG 64 ops env = run ops env := by
+  rcases runG_cases 64 ops env with e | ⟨k, i, n, a, _, hget, hrun, _, ha, hp⟩
+  · exact e
+  · have hs := h k i n a hget (by rw [hrun]; exact ha)
+    rw [pow_checked_ok_below_memory a.q n hs.1 hs.2] at hp
+    cases hp
+
+/-- **values of guarded histories below memory**: under the same hypothesis the guarded run (the real code) computes exactly the
+    value-level interpretation of the program and only ever stops with `DivideByZero` — no allocation alternative -/
+theorem history_values_guarded_below_memory (ops : List Op) (env : List Reg) (henv : ∀ r ∈ env, r.Inv)
+    (h : ∀ k i n a, ops[k]? = some (.pow i n) → (run (ops.take k) env).1[i]? = some a →
+      a.q.num.natAbs ^ n < 2 ^ (2 ^ 62) ∧ a.q.den ^ n < 2 ^ (2 ^ 62)) :
+    match (runG 64 ops env).2 with
+    | .done => Spec.run ops (env.map Reg.val) = ((runG 64 ops env).1.map Reg.val, true)
+    | .panic k => k = .divideByZero ∧
+        Spec.run ops (env.map Reg.val) = ((runG 64 ops env).1.map Reg.val, false)
+    | .bad => True := by
+  rw [runG_eq_run_below_memory ops env h]
+  exact Dashu.Props.C04.history_values ops env henv
+
+/-- **Relaxed = RBig for `pow` below memory, no "whenever both return" hypothesis**: a Relaxed operand `x` whose stored
+    components have exact powers of fewer than `2^62` bits, and the RBig operand `y` denoting the same number — BOTH powers
+    are returned, they denote the same number, and `canonicalize` of the Relaxed result is the stored RBig pair -/
+theorem relaxed_pow_equals_rbig_below_memory (x y : Q) (n : Nat) (hx : RelaxedInv x) (hy : Reduced y)
+    (hv : x.val = y.val) (hn : x.num.natAbs ^ n < 2 ^ (2 ^ 62)) (hd : x.den ^ n < 2 ^ (2 ^ 62)) :
+    ∃ r s, powChecked 64 x n = .ok r ∧ powChecked 64 y n = .ok s ∧ r.val = s.val ∧ Reduced s ∧ RelaxedInv r ∧
+      reduce r = .ok s := by
+  obtain ⟨l1, l2⟩ := reduced_components_le hx.1 hy hv
+  have e1 := pow_checked_ok_below_memory x n hn hd
+  have e2 := pow_checked_ok_below_memory y n
+    (Nat.lt_of_le_of_lt (Nat.pow_le_pow_left l1 n) hn) (Nat.lt_of_le_of_lt (Nat.pow_le_pow_left l2 n) hd)
+  obtain ⟨a, b, c⟩ := relaxed_pow_checked_equals_rbig 64 x y _ _ n hx hy hv e1 e2
+  exact ⟨_, _, e1, e2, a, b, c, reduce_eq_of_val_eq c.1 b a⟩
+
+-- non-vacuity of (7)
+example : powChecked 64 ⟨-12, 5⟩ 3 = .ok (pow ⟨-12, 5⟩ 3) :=
+  pow_checked_ok_of_bits ⟨-12, 5⟩ 3 4 (by decide) (by decide) (by decide)
+
+example : RelaxedInv ⟨9, 3⟩ ∧ Reduced ⟨3, 1⟩ ∧ (⟨9, 3⟩ : Q).val = (⟨3, 1⟩ : Q).val ∧
+    (⟨9, 3⟩ : Q).num.natAbs ^ 20 < 2 ^ (2 ^ 62) ∧ (⟨9, 3⟩ : Q).den ^ 20 < 2 ^ (2 ^ 62) := by
+  refine ⟨by decide, by decide, ?_, small_of_lt _ _ 64 (by decide) (by decide), small_of_lt _ _ 32 (by decide) (by decide)⟩
+  simp [Q.val]; norm_num
+
+example : runG 64 [.pow 0 3, .un .inv 1, .pow 2 2] [⟨.R, ⟨-12, 5⟩⟩] = run [.pow 0 3, .un .inv 1, .pow 2 2] [⟨.R, ⟨-12, 5⟩⟩] := by
+  apply runG_eq_run_below_memory
+  intro k i n a hk ha
+  match k with
+  | 0 =>
+    simp at hk
+    obtain ⟨rfl, rfl⟩ := hk
+    simp [run] at ha
+    subst ha
+    exact ⟨small_of_lt _ _ 11 (by decide) (by decide), small_of_lt _ _ 11 (by decide) (by decide)⟩
+  | 1 => simp at hk
+  | 2 =>
+    simp at hk
+    obtain ⟨rfl, rfl⟩ := hk
+    have e : (run (List.take 2 [Op.pow 0 3, .un .inv 1, .pow 2 2]) [⟨.R, ⟨-12, 5⟩⟩]).1 =
+        [⟨.R, ⟨-12, 5⟩⟩, ⟨.R, ⟨-1728, 125⟩⟩, ⟨.R, ⟨-125, 1728⟩⟩] := by decide +kernel
+    rw [e] at ha
+    simp at ha
+    subst ha
+    exact ⟨small_of_lt _ _ 30 (by decide) (by decide), small_of_lt _ _ 30 (by decide) (by decide)⟩
+  | k + 3 => simp at hk
 
 end Dashu.Props.C04Pow
